@@ -51,10 +51,10 @@ fn alphabet(level: u8) -> Vec<Op> {
         // small first-epoch alphabet for length-3 histories in the quick tier
         4 => vec![p("p", 0), p("emb:e", 3), d("p"), Op::Checkpoint, Op::Sync],
         // quick first epoch
-        1 => vec![p("p", 0), p("p", 1), p("emb:e", 3), p("emb:e", 4), p("node:n", 5), p("_cache:c", 0), d("p"), d("emb:e"), Op::Checkpoint, Op::Sync],
+        1 => vec![p("p", 0), p("p", 1), p("emb:e", 3), p("emb:e", 4), p("node:n", 5), p("_cache:c", 0), p("_cachex", 1), d("p"), d("emb:e"), Op::Checkpoint, Op::Sync],
         // thorough first epoch: two keys per class, all value kinds, full-dimension embeddings
         _ => vec![
-            p("p", 0), p("p", 2), p("q", 1), p("emb:e", 3), p("emb:e", 6), p("emb:f", 7), p("node:n", 5), p("table:t:1", 8), p("table:t:2", 9), p("_cache:c", 0),
+            p("p", 0), p("p", 2), p("q", 1), p("emb:e", 3), p("emb:e", 6), p("emb:f", 7), p("node:n", 5), p("table:t:1", 8), p("table:t:2", 9), p("_cache:c", 0), p("_cachex", 1), p("_cache", 2),
             d("p"), d("q"), d("emb:e"), d("node:n"), d("table:t:1"), Op::Checkpoint, Op::Sync,
         ],
     }
@@ -484,7 +484,7 @@ fn main() {
     }
     let mut rep = Report::new("C02", "fault_enumeration");
     let thorough = rep.thorough();
-    rep.rule("histories: all sequences of put_durable/delete_durable/checkpoint/sync over one or two keys per key class (plain, emb:, node:, table:, _cache:) and all value kinds, x sync modes {Immediate, Batched(2), Manual} x {rotation off, on}; crash images: every I/O-op boundary, every byte cut of every write (writes >160 B: first/last 24 bytes + every 61st), every length of the log's unsynced tail; epochs 2-3 continue on the store recovered from every distinct image. non-trivial = image with a torn or unsynced tail");
+    rep.rule("histories: all sequences of put_durable/delete_durable/checkpoint/sync over one or two keys per key class (plain, emb:, node:, table:, _cache:, and ordinary keys that merely start with the letters _cache) and all value kinds, x sync modes {Immediate, Batched(2), Manual} x {rotation off, on}; crash images: every I/O-op boundary, every byte cut of every write (writes >160 B: first/last 24 bytes + every 61st), every length of the log's unsynced tail; epochs 2-3 continue on the store recovered from every distinct image. non-trivial = image with a torn or unsynced tail");
     rep.assume("crash model: prefix persistence per file; renames/unlinks/truncations atomic and ordered; snapshot files subject to process-crash only (no power-loss cut after rename); directory fsync not modelled");
     rep.assume("acknowledged = call returned (Immediate) / covered by a later returned sync() or checkpoint() (Batched, Manual); _cache: keys are ignored in the comparison");
     let n = par::worker_count();
